@@ -1,6 +1,8 @@
 import XdslModel.MiniIR
 /-!
-Reference semantics for MiniIR programs (func / arith / cf / scf).  Integer operations are the
+Reference semantics for MiniIR programs (func / arith / cf / scf; for C16 also affine.for /
+affine.apply / affine.load / affine.store with serialised affine maps, memref.alloc/load/store on
+static shapes, symref.declare/update/fetch).  Integer operations are the
 MLIR semantics stated on `BitVec w`; poison / undefined behaviour is an explicit outcome (`ub`) so
 that comparisons can exclude exactly those inputs.  Effects (calls to external functions) are
 logged in order.  Fuel-indexed so that every definition is total.
@@ -12,6 +14,7 @@ inductive Val where
   | int (w : Nat) (v : BitVec w)
   | f64 (bits : UInt64)
   | f32 (bits : UInt32)
+  | mem (id : Nat)            -- reference to an allocation (memref value); C16 extension
 deriving Repr, Inhabited
 
 /-- outcome of an integer operation: unknown op / poison-or-UB / value -/
@@ -42,6 +45,9 @@ def intBin (name : String) {w : Nat} (a b : BitVec w) : IntRes w :=
   | "arith.maxsi" => .val (if a.slt b then b else a)
   | "arith.minui" => .val (if a.ult b then a else b)
   | "arith.maxui" => .val (if a.ult b then b else a)
+  -- not an MLIR operation: the non-negative remainder of the affine dialect.  Used only by the C16
+  -- harness to test whether a disagreement after lower-affine is explained by `mod` → `arith.remsi`.
+  | "c16.floormodsi" => if b.toInt ≤ 0 then .ub else .val (BitVec.ofInt w (Int.fmod a.toInt b.toInt))
   | _ => .unknown
 
 /-- MLIR `arith.cmpi` predicates 0..9 on bit patterns. -/
@@ -108,9 +114,17 @@ structure Effect where
   args : List Val
 deriving Inhabited
 
+/-- one allocation: static shape and row-major cells (`none` = never written) -/
+structure Alloc where
+  shape : List Nat
+  cells : List (Option Val)
+deriving Inhabited
+
 structure St where
   env : AL Nat Val := []
   eff : List Effect := []     -- most recent first
+  sym : AL String Val := []   -- `symref` variables of the running function (C16 extension)
+  mem : List Alloc := []      -- allocations, indexed by `Val.mem` id (C16 extension)
 deriving Inhabited
 
 inductive Res (α : Type) where
@@ -225,6 +239,173 @@ def pureOp (o : Op) (args : List Val) : Res (List Val) :=
     | _ => .err s!"unsupported op {name}"
   | _, _ => .err s!"unsupported op {name}"
 
+
+/-! ### C16 extensions: affine maps, symref variables, static memrefs
+
+Affine maps are serialised by `harness/vp/miniir.py` as an `ints` attribute
+`[numDims, numSyms, numResults, code…]` with every result expression in prefix code:
+`0 c` constant, `1 p` dim, `2 p` symbol, `3 l r` add, `4 l r` mul, `5 l r` mod, `6 l r` floordiv,
+`7 l r` ceildiv.  The value is the mathematical one of the MLIR affine dialect (`mod` is the
+non-negative remainder, `floordiv`/`ceildiv` round to −∞/+∞; a non-positive right operand of
+these three is undefined behaviour). -/
+inductive AffRes where
+  | ok (v : Int) (rest : List Int)
+  | ub
+  | bad
+
+def evalAffCode : Nat → List Int → List Int → List Int → AffRes
+  | 0, _, _, _ => .bad
+  | _ + 1, 0 :: c :: rest, _, _ => .ok c rest
+  | _ + 1, 1 :: p :: rest, ds, _ => match ds[p.toNat]? with | some v => .ok v rest | none => .bad
+  | _ + 1, 2 :: p :: rest, _, ss => match ss[p.toNat]? with | some v => .ok v rest | none => .bad
+  | f + 1, k :: rest, ds, ss =>
+    match evalAffCode f rest ds ss with
+    | .ok a rest1 => match evalAffCode f rest1 ds ss with
+      | .ok b rest2 =>
+        if k = 3 then .ok (a + b) rest2
+        else if k = 4 then .ok (a * b) rest2
+        else if k = 5 then (if b ≤ 0 then .ub else .ok (Int.fmod a b) rest2)
+        else if k = 6 then (if b ≤ 0 then .ub else .ok (Int.fdiv a b) rest2)
+        else if k = 7 then (if b ≤ 0 then .ub else .ok (-(Int.fdiv (-a) b)) rest2)
+        else .bad
+      | r => r
+    | r => r
+  | _ + 1, [], _, _ => .bad
+
+def evalAffResults : Nat → List Int → List Int → List Int → Res (List Int)
+  | 0, _, _, _ => .ok []
+  | n + 1, code, ds, ss =>
+    match evalAffCode (code.length + 1) code ds ss with
+    | .ok v rest => match evalAffResults n rest ds ss with
+      | .ok vs => .ok (v :: vs)
+      | e => e
+    | .ub => .ub "affine expression: non-positive divisor"
+    | .bad => .err "affine map code"
+
+/-- apply a serialised affine map to operand values (dims first, then symbols) -/
+def evalAffMap (code : List Int) (operands : List Int) : Res (List Int) :=
+  match code with
+  | nd :: ns :: nr :: body =>
+    if operands.length ≠ nd.toNat + ns.toNat then .err "affine map operand count"
+    else evalAffResults nr.toNat body (operands.take nd.toNat) (operands.drop nd.toNat)
+  | _ => .err "affine map attribute"
+
+def asIndex : Val → Res Int
+  | .int _ v => .ok v.toInt
+  | _ => .err "expected index"
+
+/-- static shape from the serialised type `memref:<d0>x<d1>…:<elt>` -/
+def memrefShape (t : Ty) : Option (List Nat) :=
+  match t with
+  | .other s => match s.splitOn ":" with
+    | ["memref", dims, _] => if dims = "" then some [] else (dims.splitOn "x").mapM (·.toNat?)
+    | _ => none
+  | _ => none
+
+def linearIndex : List Nat → List Int → Option Nat
+  | [], [] => some 0
+  | d :: ds, i :: is =>
+    if i < 0 ∨ i ≥ d then none
+    else match linearIndex ds is with
+      | some r => some (i.toNat * ds.foldl (· * ·) 1 + r)
+      | none => none
+  | _, _ => none
+
+def St.load (st : St) (m : Val) (idx : List Int) : Res Val :=
+  match m with
+  | .mem id => match st.mem[id]? with
+    | some a => match linearIndex a.shape idx with
+      | some k => match a.cells[k]? with
+        | some (some v) => .ok v
+        | some none => .ub "load of a never-written memref element"
+        | none => .err "memref cell"
+      | none => .ub "memref index out of bounds"
+    | none => .err "unknown allocation"
+  | _ => .err "expected memref"
+
+def St.store (st : St) (m : Val) (idx : List Int) (v : Val) : Res St :=
+  match m with
+  | .mem id => match st.mem[id]? with
+    | some a => match linearIndex a.shape idx with
+      | some k => .ok { st with mem := st.mem.set id { a with cells := a.cells.set k (some v) } }
+      | none => .ub "memref index out of bounds"
+    | none => .err "unknown allocation"
+  | _ => .err "expected memref"
+
+def attrInts (o : Op) (k : String) : Option (List Int) :=
+  match o.attr? k with
+  | some (.ints l) => some l
+  | _ => none
+
+/-- symref / memref / affine.apply / affine.load / affine.store: operations that touch the extended
+state but have no regions.  `none` = not one of these. -/
+def stateOp (st : St) (o : Op) (args : List Val) : Option (Res (St × List Val)) :=
+  match o.name, args with
+  | "symref.declare", [] => some (.ok (st, []))
+  | "symref.update", [v] => match o.attr? "symbol" with
+    | some (.str s) => some (.ok ({ st with sym := AL.set st.sym s v }, []))
+    | _ => some (.err "symref.update symbol")
+  | "symref.fetch", [] => match o.attr? "symbol" with
+    | some (.str s) => match AL.get st.sym s with
+      | some v => some (.ok (st, [v]))
+      | none => some (.ub "symref.fetch of a symbol that was never written")
+    | _ => some (.err "symref.fetch symbol")
+  | "memref.alloc", [] | "memref.alloca", [] => match o.results with
+    | [(_, t)] => match memrefShape t with
+      | some sh => some (.ok ({ st with mem := st.mem ++ [{ shape := sh, cells := List.replicate (sh.foldl (· * ·) 1) none }] },
+                              [.mem st.mem.length]))
+      | none => some (.err "memref.alloc type")
+    | _ => some (.err "memref.alloc results")
+  | "memref.dealloc", [_] => some (.ok (st, []))
+  | "memref.load", m :: idx => some (match idx.mapM asIndex with
+    | .ok is => match st.load m is with
+      | .ok v => .ok (st, [v])
+      | .ub w => .ub w | .fuel => .fuel | .err e => .err e
+    | _ => .err "memref.load indices")
+  | "memref.store", v :: m :: idx => some (match idx.mapM asIndex with
+    | .ok is => match st.store m is v with
+      | .ok st' => .ok (st', [])
+      | .ub w => .ub w | .fuel => .fuel | .err e => .err e
+    | _ => .err "memref.store indices")
+  | "affine.apply", ops => some (match attrInts o "map", ops.mapM asIndex with
+    | some code, .ok is => match evalAffMap code is with
+      | .ok [r] => .ok (st, [.int 64 (BitVec.ofInt 64 r)])
+      | .ok _ => .err "affine.apply result count"
+      | .ub w => .ub w | .fuel => .fuel | .err e => .err e
+    | _, _ => .err "affine.apply")
+  | "affine.load", m :: idx => some (match attrInts o "map", idx.mapM asIndex with
+    | some code, .ok is => match evalAffMap code is with
+      | .ok js => match st.load m js with
+        | .ok v => .ok (st, [v])
+        | .ub w => .ub w | .fuel => .fuel | .err e => .err e
+      | .ub w => .ub w | .fuel => .fuel | .err e => .err e
+    | _, _ => .err "affine.load")
+  | "affine.store", v :: m :: idx => some (match attrInts o "map", idx.mapM asIndex with
+    | some code, .ok is => match evalAffMap code is with
+      | .ok js => match st.store m js v with
+        | .ok st' => .ok (st', [])
+        | .ub w => .ub w | .fuel => .fuel | .err e => .err e
+      | .ub w => .ub w | .fuel => .fuel | .err e => .err e
+    | _, _ => .err "affine.store")
+  | _, _ => none
+
+/-- bounds of an `affine.for`: operands are `lbOperands ++ ubOperands ++ inits`
+(`operandSegmentSizes`), maps have one result each. -/
+def affineForBounds (o : Op) (args : List Val) : Res (Int × Int × Int × List Val) :=
+  match attrInts o "lowerBoundMap", attrInts o "upperBoundMap", o.attr? "step", attrInts o "operandSegmentSizes" with
+  | some lbm, some ubm, some (.int s _), some [nl, nu, _] =>
+    let lops := args.take nl.toNat
+    let uops := (args.drop nl.toNat).take nu.toNat
+    let inits := args.drop (nl.toNat + nu.toNat)
+    match lops.mapM asIndex, uops.mapM asIndex with
+    | .ok li, .ok ui => match evalAffMap lbm li, evalAffMap ubm ui with
+      | .ok [l], .ok [u] => .ok (l, u, s, inits)
+      | .ub w, _ => .ub w
+      | _, .ub w => .ub w
+      | _, _ => .err "affine.for bound maps"
+    | _, _ => .err "affine.for bound operands"
+  | _, _, _, _ => .err "affine.for attributes"
+
 def findFunc (p : Prog) (n : String) : Option Func := p.funcs.find? (·.name = n)
 
 def findBlock (r : Region) (id : Nat) : Option Block := r.blocks.find? (·.id = id)
@@ -260,6 +441,7 @@ mutual
       match o.name with
       | "func.return" => .ok (st, some (.ret args))
       | "scf.yield" => .ok (st, some (.yield args))
+      | "affine.yield" => .ok (st, some (.yield args))
       | "scf.condition" => match args with
         | c :: rest => match asBool c with
           | .ok b => .ok (st, some (.cond b rest))
@@ -326,7 +508,30 @@ mutual
           | .fuel => .fuel
           | .err m => .err m
         | _ => .err "scf.while"
+      | "affine.for" => match o.regions with
+        | [body] => match affineForBounds o args with
+          | .ok (l, u, s, inits) =>
+            if s ≤ 0 then .ub "affine.for non-positive step"
+            else match runFor f P st body 64 l u s inits with
+              | .ok (st', vs) => match st'.bind o.results vs with
+                | .ok st'' => .ok (st'', none)
+                | _ => .err "affine.for results"
+              | .ub w => .ub w
+              | .fuel => .fuel
+              | .err m => .err m
+          | .ub w => .ub w
+          | .fuel => .fuel
+          | .err m => .err m
+        | _ => .err "affine.for"
       | _ =>
+        match stateOp st o args with
+        | some (.ok (st1, rs)) => match st1.bind o.results rs with
+          | .ok st' => .ok (st', none)
+          | _ => .err "results arity"
+        | some (.ub w) => .ub w
+        | some .fuel => .fuel
+        | some (.err m) => .err m
+        | none =>
         match pureOp o args with
         | .ok rs => match st.bind o.results rs with
           | .ok st' => .ok (st', none)
@@ -396,8 +601,8 @@ mutual
         | none => .ok ({ st with eff := ⟨name, args⟩ :: st.eff }, [])
         | some r =>
           -- callee runs in a fresh value environment; effects are threaded through
-          match runRegion f P { env := [], eff := st.eff } r args with
-          | .ok (st', .ret vs) => .ok ({ st with eff := st'.eff }, vs)
+          match runRegion f P { env := [], eff := st.eff, sym := [], mem := st.mem } r args with
+          | .ok (st', .ret vs) => .ok ({ st with eff := st'.eff, mem := st'.mem }, vs)
           | .ok _ => .err "function did not return"
           | .ub x => .ub x
           | .fuel => .fuel
@@ -419,6 +624,7 @@ def showVal : Val → String
   | .int w v => s!"i{w}:{v.toInt}"
   | .f64 b => if (Float.ofBits b).isNaN then "f64:nan" else s!"f64:{hexDigits b.toNat}"
   | .f32 b => if (Float32.ofBits b).isNaN then "f32:nan" else s!"f32:{hexDigits b.toNat}"
+  | .mem id => s!"mem:{id}"
 
 def parseVal (s : String) : Option Val :=
   match s.splitOn ":" with
